@@ -1,4 +1,5 @@
 import GenjaxModel.Proofs.Chain
+import GenjaxModel.Proofs.ChainMulti
 /-!
 # C18 — chain returns exactly the burnt-in, thinned kernel iterates and diagnostics
 
@@ -45,5 +46,135 @@ theorem C18_rate (step : Nat → σ → σ × Bool) (init : σ) (n b k : Nat) :
 
 /-- non-vacuity: a concrete run -/
 example : (chain (fun j (s : Nat) => (s + j + 1, j % 2 == 0)) 0 7 1 3).states = [3, 15] := by decide
+
+
+/-! ## Acceptance rate as a mean (with the division), multi-chain branch, seeded-kernel view
+
+`Model/ChainMulti.lean`: `Result.rate` (= `jnp.mean(final_accepts)`), `multiChain` (the
+`n_chains != 1` branch: `modular_vmap` of the single-chain code over the replicated initial trace,
+lane `ci` running the kernel `steps ci`), `runChain` (dispatch on `n_chains == 1`), `seededStep`. -/
+
+/-- single chain: `acceptance_rate` is the mean of the RETURNED (burnt-in, thinned) flags, as a
+    rational number: rate = #True(accepts) / len(accepts); when the result is non-empty
+    rate · n_steps = acceptCount (so rate = acceptCount / n_steps is a genuine quotient, not the
+    totalised `x / 0 = 0`), 0 ≤ rate ≤ 1, and in terms of the kernel: rate = #{ i < n_steps : step
+    number burn_in + i·thinning was accepted } / n_steps with n_steps = ⌈(n − burn_in)/thinning⌉.
+    Strengthens `C18_rate` (which only states the count). -/
+theorem C18_rate_is_mean (step : Nat → σ → σ × Bool) (init : σ) (n b k : Nat) (hk : 0 < k) :
+    (chain step init n b k).rate = meanBool (chain step init n b k).accepts ∧
+    (0 < (chain step init n b k).nSteps →
+      (chain step init n b k).rate * ((chain step init n b k).nSteps : Rat)
+        = ((chain step init n b k).acceptCount : Rat)) ∧
+    (0 ≤ (chain step init n b k).rate ∧ (chain step init n b k).rate ≤ 1) ∧
+    (chain step init n b k).rate
+      = (((List.range ((n - b + k - 1) / k)).filter fun i => accepted step (b + i * k) init).length : Rat)
+          / (((n - b + k - 1) / k : Nat) : Rat) := by
+  refine ⟨chain_rate_eq_meanBool step init n b k, ?_, ?_, chain_rate_spec step init n b k hk⟩
+  · intro h
+    rw [chain_rate_eq_meanBool, chain_nSteps_eq, chain_acceptCount_eq]
+    exact meanBool_mul_length _ (by rw [← chain_nSteps_eq]; exact h)
+  · rw [chain_rate_eq_meanBool]
+    exact ⟨meanBool_nonneg _, meanBool_le_one _⟩
+
+/-- the retained flags / states are, in order, those of the step numbers b, b+k, b+2k, … -/
+theorem C18_result_lists (step : Nat → σ → σ × Bool) (init : σ) (n b k : Nat) (hk : 0 < k) :
+    (chain step init n b k).states
+      = (List.range ((n - b + k - 1) / k)).map (fun i => iter step (b + i * k + 1) init) ∧
+    (chain step init n b k).accepts
+      = (List.range ((n - b + k - 1) / k)).map (fun i => accepted step (b + i * k) init) := by
+  have hm := (chain_count step init n b k hk).1
+  exact ⟨hm ▸ chain_states_eq_map step init n b k hk, hm ▸ chain_accepts_eq_map step init n b k hk⟩
+
+/-- non-vacuity of `C18_rate_is_mean`: 2 retained steps (numbers 1 and 4 of 7), one accepted -/
+example : (chain (fun j (s : Nat) => (s + j + 1, j % 2 == 0)) 0 7 1 3).rate = 1 / 2 ∧
+    0 < (chain (fun j (s : Nat) => (s + j + 1, j % 2 == 0)) 0 7 1 3).nSteps := by decide +kernel
+
+/-- multi-chain: lane `ci` of every stacked field is the single-chain result of lane `ci`'s kernel
+    on the same initial state with the same n, burn_in, thinning (states, accepts, n_steps, and the
+    per-chain rate); in particular it does not depend on the other lanes' kernels. Every n, burn_in,
+    thinning, number of chains. -/
+theorem C18_multi_lane (steps : Nat → Nat → σ → σ × Bool) (init : σ) (n b k c : Nat)
+    (ci : Nat) (hc : ci < c) :
+    (multiChain steps init n b k c).states[ci]? = some (chain (steps ci) init n b k).states ∧
+    (multiChain steps init n b k c).accepts[ci]? = some (chain (steps ci) init n b k).accepts ∧
+    (multiChain steps init n b k c).nSteps = (chain (steps ci) init n b k).nSteps ∧
+    (multiChain steps init n b k c).chainRates[ci]? = some (chain (steps ci) init n b k).rate :=
+  multiChain_lane steps init n b k c ci hc
+
+/-- shapes: leading axis = n_chains for states, accepts (and the per-chain rates); second axis =
+    n_steps = ⌈(n − burn_in)/thinning⌉ in every lane -/
+theorem C18_multi_shape (steps : Nat → Nat → σ → σ × Bool) (init : σ) (n b k c : Nat) (hk : 0 < k) :
+    (multiChain steps init n b k c).states.length = c ∧
+    (multiChain steps init n b k c).accepts.length = c ∧
+    (multiChain steps init n b k c).chainRates.length = c ∧
+    (multiChain steps init n b k c).nChains = c ∧
+    (multiChain steps init n b k c).nSteps = (n - b + k - 1) / k ∧
+    (∀ row ∈ (multiChain steps init n b k c).states, row.length = (n - b + k - 1) / k) ∧
+    (∀ row ∈ (multiChain steps init n b k c).accepts, row.length = (n - b + k - 1) / k) := by
+  obtain ⟨h1, h2, h3, h4⟩ := multiChain_shape_lead steps init n b k c
+  obtain ⟨h5, h6, h7⟩ := multiChain_shape_inner steps init n b k c hk
+  exact ⟨h1, h2, h3, h4, h5, h6, h7⟩
+
+/-- entry (ci, i) of the stacked result is lane ci's state after its step number
+    burn_in + i·thinning, and accepts[ci][i] is the flag of that very step -/
+theorem C18_multi_slice (steps : Nat → Nat → σ → σ × Bool) (init : σ) (n b k c : Nat) (hk : 0 < k)
+    (ci : Nat) (hc : ci < c) (i : Nat) (hi : i < (multiChain steps init n b k c).nSteps) :
+    (((multiChain steps init n b k c).states.getD ci []).getD i default
+        = iter (steps ci) (b + i * k + 1) init) ∧
+    (((multiChain steps init n b k c).accepts.getD ci []).getD i false
+        = accepted (steps ci) (b + i * k) init) :=
+  multiChain_slice steps init n b k c hk ci hc i hi
+
+/-- multi-chain rates, as the code computes them: the per-chain rates are the row means of the
+    RETURNED flags (`jnp.mean(combined_accepts, axis=1)`, each in [0,1]); the reported
+    `acceptance_rate` is the mean of the per-chain rates; and for a non-empty result
+    (n_chains > 0, n_steps > 0) that equals the mean of all returned flags
+    = (Σ_lanes #True) / (n_chains · n_steps). -/
+theorem C18_multi_rate (steps : Nat → Nat → σ → σ × Bool) (init : σ) (n b k c : Nat) (hk : 0 < k) :
+    (multiChain steps init n b k c).chainRates = (multiChain steps init n b k c).accepts.map meanBool ∧
+    (∀ r ∈ (multiChain steps init n b k c).chainRates, 0 ≤ r ∧ r ≤ 1) ∧
+    (multiChain steps init n b k c).rate = meanRat (multiChain steps init n b k c).chainRates ∧
+    (0 < c → 0 < (multiChain steps init n b k c).nSteps →
+      (multiChain steps init n b k c).rate = meanBool (multiChain steps init n b k c).accepts.flatten ∧
+      (multiChain steps init n b k c).rate
+        = ((((multiChain steps init n b k c).accepts.map countTrue).sum : Nat) : Rat)
+            / ((c * (multiChain steps init n b k c).nSteps : Nat) : Rat)) :=
+  ⟨rfl, multiChain_rate_bounds steps init n b k c, rfl,
+   fun hc hn => multiChain_rate_overall steps init n b k c hk hc hn⟩
+
+/-- `n_chains = 1` returns the single-chain result of lane 0 without a chain axis; any other
+    `n_chains` returns the stacked result -/
+theorem C18_multi_dispatch (steps : Nat → Nat → σ → σ × Bool) (init : σ) (n b k c : Nat) :
+    runChain steps init n b k 1 = .single (chain (steps 0) init n b k) ∧
+    (c ≠ 1 → runChain steps init n b k c = .multi (multiChain steps init n b k c)) :=
+  ⟨runChain_one steps init n b k, runChain_multi steps init n b k c⟩
+
+/-- non-vacuity of the multi-chain theorems: 3 lanes with different kernels, n=7, burn_in=1,
+    thinning=3: lane rates 1/2, 1, 1/2 and overall rate 2/3 = 4 accepted of 3·2 retained steps -/
+example :
+    let r := multiChain (fun ci j (s : Nat) => (s + j + ci, j % (ci + 2) == 1)) 0 7 1 3 3
+    r.states = [[1, 10], [3, 15], [5, 20]] ∧ r.accepts = [[true, false], [true, true], [true, false]] ∧
+    r.nSteps = 2 ∧ r.chainRates = [1 / 2, 1, 1 / 2] ∧ r.rate = 2 / 3 := by decide +kernel
+
+/-- seeded-kernel view: when application number `j` of the kernel is `kern (fold j)` (under `seed`
+    the scan body gets the key `fold_in(sub_key, j)`), retained state `i` of `chain` is the state
+    obtained by manually iterating the seeded kernel with the keys fold 0, …, fold (b + i·k) from
+    the initial state, and the multi-chain lanes likewise with their own key streams -/
+theorem C18_seeded_view {κ : Type} (kern : κ → σ → σ × Bool) (fold : Nat → κ) (init : σ)
+    (n b k : Nat) (hk : 0 < k) (i : Nat)
+    (hi : i < (chain (seededStep kern fold) init n b k).nSteps) :
+    (chain (seededStep kern fold) init n b k).states.getD i default
+      = iterKeys kern fold (b + i * k + 1) init ∧
+    (chain (seededStep kern fold) init n b k).accepts.getD i false
+      = (kern (fold (b + i * k)) (iterKeys kern fold (b + i * k) init)).2 := by
+  obtain ⟨h1, h2⟩ := chain_slice (seededStep kern fold) init n b k hk i hi
+  rw [h1, h2, iter_seeded]
+  refine ⟨rfl, ?_⟩
+  unfold accepted
+  rw [iter_seeded]
+  rfl
+
+example : iterKeys (fun (key : Nat) (s : Nat) => (s * 2 + key, key % 2 == 0)) (fun j => 10 + j) 3 1
+    = 82 := by decide
 
 end Genjax.Chain
